@@ -283,6 +283,7 @@ var StructTypes = []reflect.Type{
 	T(CN1{}), T(CN2{}), T(NMapHolder{}),
 	T(ManyF{}), T(ManyL{}),
 	T(Node{}), T(FNode{}), T(Ping{}), T(Pong{}), T(ENode{}), T(DeepNil{}),
+	T(MapAndLists{}), T(Wrap{}), T(WrapList{}),
 }
 
 // TypeByName finds a zoo struct type.
@@ -429,3 +430,36 @@ type F9 struct {
 }
 
 var FTypes = []reflect.Type{reflect.TypeOf(F3{}), reflect.TypeOf(F4{}), reflect.TypeOf(F5{}), reflect.TypeOf(F9{})}
+
+// ---- types added for specific mechanisms
+
+// MapAndLists: a typed (named) map in front of the same list type several times:
+// map types and list types share one type list on the wire.
+type MapAndLists struct {
+	M  NMap
+	A  []int32
+	B  []int32
+	PM PlainMap
+	C  [][]int32
+	D  []string
+	E  []string
+}
+
+// Wrap: the first field is a struct from which interface slots are reachable
+// (a struct and its first field share their address).
+type Wrap struct {
+	Head AnyList
+	X    int32
+}
+
+type WrapList struct {
+	L []*Wrap
+	W Wrap
+}
+
+// PtrTime: pointer to a timestamp in front of shared containers.
+type PtrTime struct {
+	T *time.Time
+	A *Inner
+	B *Inner
+}
